@@ -3,7 +3,7 @@
 /repo, all checks run statically; prints which property checks / rules report something new)."""
 import json,glob,os,shutil,subprocess,tempfile,sys,re
 from concurrent.futures import ThreadPoolExecutor
-ENV=dict(os.environ,GOFLAGS='-mod=mod',GOPROXY='off',GOSUMDB='off',GOTOOLCHAIN='local',GOWORK='off')
+ENV=dict(os.environ,GOFLAGS='-mod=mod -trimpath',GOPROXY='off',GOSUMDB='off',GOTOOLCHAIN='local',GOWORK='off')
 HC=os.environ.get('HMSCHECK','/verif/bin/hmscheck')
 patches=[]
 for g in sys.argv[1:]: patches+=sorted(glob.glob(g))
@@ -13,7 +13,7 @@ def run(patch):
     tmp=tempfile.mkdtemp(prefix='hms-pm-')
     try:
         scr=os.path.join(tmp,'repo')
-        subprocess.run(['cp','-a','/repo',scr],check=True); shutil.rmtree(os.path.join(scr,'.git'),ignore_errors=True)
+        os.makedirs(scr); subprocess.run(['rsync','-a','--exclude=.git','/repo/',scr+'/'],check=True)
         if subprocess.run(['git','apply','--whitespace=nowarn',patch],cwd=scr,capture_output=True).returncode!=0: return patch,None,'does not apply'
         if subprocess.run(['go','build','./...'],cwd=scr,capture_output=True,env=ENV).returncode!=0: return patch,None,'does not build'
         p=subprocess.run([HC,'-all','-repo',scr,'-verif','/verif'],capture_output=True,text=True,env=ENV)
